@@ -22,10 +22,10 @@ CLAIMED = {
              text="Weak: decides that no catalogued check was deleted or downgraded (per-module floors), that every constructed diagnostic reaches a sink with the matching severity and the stage of its module, that a parse-stage error returns no output and keeps only parse diagnostics while other paths keep the output, that validity is has_output and no errors, that parsed fractions pass the zero-denominator rejection, and that the out-of-range test of an intermediate reference is the emptiness of the step-filtered n-th lookup / a comparison with the number of finished sections, and that the emptiness predicate behind the empty-name/unit/key/value checks examines every fragment, and that the primary label stays labels[0] (constructors start with it, the list is only pushed to). It does not decide that a check fires on the right condition, that well-formed recipes are diagnostic-free, or where labels point.",
              ref="DESIGN.md §5 C07"),
  "C13": dict(technique="sibling agreement between the parse-time validator and the accessors (call-graph reach per StdKey arm) + integer arithmetic discipline + mutation/ordering rule on the servings list",
-             text="Partial: decides that each standard key is validated at parse time by the interpretation function its accessor uses and that both metadata styles run it and store servings; that the duration parsers' integer arithmetic is the reviewed, checked set; that the servings list is returned in declaration order and its duplicate test runs on a sorted copy; that tags enter the result only under the non-empty and not-yet-present tests; that parse-time validation never goes through an error-discarding accessor. What each parser accepts is not decided.",
+             text="Partial: decides that each standard key is validated at parse time by the interpretation function its accessor uses and that both metadata styles run it and store servings; that the duration parsers' integer arithmetic is the reviewed, checked set; that the servings list is returned in declaration order and its duplicate test runs on a sorted copy; that tags enter the result only under the non-empty and not-yet-present tests; that parse-time validation never goes through an error-discarding accessor; that the number of a number-unit duration is the leading run of digits and '.'. What each parser accepts is not decided.",
              ref="DESIGN.md §5 C13"),
  "C14": dict(technique="argument lineage of the two parse entry points + must-pass-through of every parsed metadata entry to the event queue + purity of the projection",
-             text="Weak: decides that both entry points build the same parser, share the entry parser metadata_entry, emit every entry it returns, run the same analysis with the same extensions/converter/options, and that the metadata result is the untouched metadata field. That both scanners decide 'a `>>` at the start of a line' from the token stream in the same way (previous token is a Newline token, peeked token is MetadataStart; lines end at the Newline token and nowhere else, never judged from the input text) is decided; that they select the same lines in every other respect (multi-line blocks, config keys under MODES) is not.",
+             text="Weak: decides that both entry points build the same parser, share the entry parser metadata_entry, emit every entry it returns, run the same analysis with the same extensions/converter/options on every path (no early return that bypasses the scanner), and that the metadata result is the untouched metadata field. That both scanners decide 'a `>>` at the start of a line' from the token stream in the same way (previous token is a Newline token, peeked token is MetadataStart; lines end at the Newline token and nowhere else, never judged from the input text) is decided; that they select the same lines in every other respect (multi-line blocks, config keys under MODES) is not.",
              ref="DESIGN.md §5 C14"),
  "C06": dict(technique="pairing / ordering / lineage rules on the MIR of the analysis collector (must-pass-through, edge dominance, value lineage by backward slicing)",
              text="Decides structural necessary conditions of referential consistency: step item indices come from the same-kind collector method which returns len(table)-1 of the table it pushed to; content and location tables are pushed in lock-step; references are set from a search that excludes references, and listed back exactly once before the push; the step counter is reset per section and bumped per pushed step; empty sections are not pushed; intermediate references are bounds-checked and step-filtered; every component made a reference also receives the REF modifier and is reported to the caller (which adds the back link); a timer without a name is built only where its quantity is known to be present; text items are built only under a non-empty test of their value (analysis side) or of the parsed text (step parser side). Name equality, document order and emptiness of steps are not decided.",
@@ -34,7 +34,7 @@ CLAIMED = {
              text="Decides that no path through the grouping functions drops its argument, that every reader of a grouped quantity covers all four stores, that quantity-map inserts cannot silently overwrite (one reviewed finding), that a text value can never be stored into a running total, and that totals are built from the definition plus its referenced_from entries, definitions only, listed-only, keyed by display name. Numerical sums and fit() are not decided.",
              ref="DESIGN.md §5 C10"),
  "C11": dict(technique="C03 inventories restricted to the aisle module + lookup/insert pairing by dominance and key-expression equality + span formula shape + value lineage of the lookup map + writer/reader delimiter agreement from decoded format templates",
-             text="Partial: decides the totality clause (reviewed failure sites, arithmetic and loops of the aisle parser/writer), that each insertion into a duplicate-detection set is confined to the not-found outcome of a lookup of the same key with the stored value trimmed like the checked one, and that every error span is directly the pointer-offset span of one sub-slice of the input (no other Span is built in the parser). Lookup: every IngredientInfo takes the first name of its line as common name, the enclosing category, and is stored under the iterated name. The writer's delimiters and line ends are exactly what the parser strips and splits on (a necessary condition of the round trip); the round trip itself is not decided.",
+             text="Partial: decides the totality clause (reviewed failure sites, arithmetic and loops of the aisle parser/writer), that each insertion into a duplicate-detection set is confined to the not-found outcome of a lookup of the same key with the stored value trimmed like the checked one, and that every error span is directly the pointer-offset span of one sub-slice of the input (no other Span is built in the parser). Lookup: every IngredientInfo takes the first name of its line as common name, the enclosing category, and is stored under the iterated name. The writer's delimiters and line ends are exactly what the parser strips and splits on (a necessary condition of the round trip), and comments start at the first `//`; the round trip itself is not decided.",
              ref="DESIGN.md §5 C11"),
  "C12": dict(technique="rational-function identity between the writer (new_approx) and the reader (Number::value) + edge-dominance of every Some(Fraction) by its limit checks + format templates of Display decoded from MIR constants + shape of the lookup-table constructor",
              text="Partial: decides that value() of every fraction new_approx can return is the approximated input as a symbolic identity, that each returned fraction is dominated by the positive/finite, whole<=max_whole and |err|<=accuracy*value tests, that the fractional part comes from the max_den-bounded lookup, that configured limits are clamped, that the printed forms are exactly `w`, `n/d`, `w n/d` with a component omitted only when it is zero, and that the table holds numerators 1..den keyed by n/d. Nearest-fraction choice and all numerics are not decided.",
